@@ -69,12 +69,13 @@ PROPS = {
         "quick": {"runs": 1200, "race_runs": 200, "budget_s": 150},
         "thorough": {"runs": 200000, "race_runs": 30000, "budget_s": 1500},
         "rule": "one run = one seeded model-graph file (1-4 model types, 1-5 generations, 0-4 nodes per model and generation incl. empty batches, links with fan-in and fan-out, models with and without stored inputs, 1-12 timesteps) and command line (-overwrite on an existing output, -outputs-for/-no-outputs-for/-inputs-for/-no-inputs-for, separate parameter/state/timeseries/final-state files, no output file) executed by the real ow-sim under the seeded scheduler with seeded disk latencies (0, 1 ms, 100 ms, 2 s per call on the fake clock), compared dataset by dataset and bit for bit with a sequential reference executor, plus exactly-once/before-return/no-reload accounting from the disk call log, liveness within the step and simulated-time caps and the lock monitor; non-trivial = at least one node and at least one scheduling decision with 2 or more runnable tasks",
-        "real": ["cmd/ow-sim (run_simulation, runGeneration, writer goroutines, modelReference; external writer mode not simulated)", "io", "data", "sim", "models/*", "conv", "util"],
-        "stub": ["HDF5 C library and gonum binding (fakehdf5)", "file namespace (os.Stat/os.Remove)", "os.Exit (recorded as an event)"],
+        "real": ["cmd/ow-sim (run_simulation, runGeneration, writer goroutines, modelReference, writeProtobuf; run_writer of the child processes in the owsimext phases)", "io", "io/protobuf", "data", "sim", "models/*", "conv", "util"],
+        "stub": ["HDF5 C library and gonum binding (fakehdf5)", "file namespace (os.Stat/os.Remove)", "os.Exit (recorded as an event)",
+                 "os/exec, io.Pipe, os.Stdin, log.Fatal* in the owsimext phases (simrt/proc.go: child processes as task groups, the parent-child pipe as a bounded byte queue with short reads and delays)"],
         "assumptions": ["fake HDF5 semantics (fakehdf5/hdf5.go)", "destination models of links are taken from a list of models that tolerate any non-negative input",
                         "the default for writing final inputs is implementation-defined: asserted only where -inputs-for/-no-inputs-for speak, but whatever is written must equal the reference",
                         "disk errors are not injected here (the property is silent; ow-sim exits); only delays", "instrumenter, testing/synctest, Go race detector for the -race runs"],
-        "not_evaluated": ["external writer processes (-outputs m=file, -writer)"],
+        "not_evaluated": ["two models sent to the same external file (two processes writing one HDF5 file)", "death of a writer process (the property does not speak about it)"],
     },
     "C01": {
         "engine": "arrays", "level": "exploration", "race": False,
@@ -142,3 +143,10 @@ PROPS["C17"]["rule"] += "; a writer that fails in mid-answer is injected before 
 PROPS["C06"]["also"] = [{"engine": "owsimsplit", "race": False, "runs_quick": 250, "runs_thorough": 30000}]
 PROPS["C06"]["rule"] += "; 35% of the cases hold 2-3 cells (state vectors of different width zero padded); an additional phase runs seeded ow-sim model graphs once for the whole period and once as two consecutive ow-sim runs connected by -final-states/-initial-states files on the fake disk, under the seeded scheduler"
 PROPS["C06"]["real"] = PROPS["C06"]["real"] + ["cmd/ow-sim (hot-start phase)"]
+
+# C07 with "-outputs model=file": results streamed to child writer processes (simulated processes
+# and pipes, simrt/proc.go)
+PROPS["C07"]["rule"] += "; additional phases (owsimext, normal and -race binary): the same graphs with -outputs model=file for a seeded subset of the models: parent, stdin copier and every 'ow-sim -writer' child run as simulated processes joined by pipes with seeded capacity (1, 7, 4096, 65536 bytes), short reads and reader delays; outputs and final inputs must appear in the model's own file, every child must have finished before ow-sim returns, nothing else may be written"
+PROPS["C07"]["assumptions"] = PROPS["C07"]["assumptions"] + ["owsimext: the child shares the io package's lock table with the parent (one address space); the pipe model follows os/exec (copier goroutine + kernel pipe): a write to the io.Pipe returns when the copier has taken the data, the kernel pipe blocks when full, the parent's exit closes its pipe ends"]
+PROPS["C07"]["also"] = [{"engine": "owsimext", "race": False, "runs_quick": 500, "runs_thorough": 60000},
+                        {"engine": "owsimext", "race": True, "runs_quick": 120, "runs_thorough": 10000}]
